@@ -113,7 +113,9 @@ def classify(rec):
     """mechanism-level kind + features of a contract violation (for known-findings matching)"""
     m, why = rec['msg'], rec['why']
     feats = []
-    allp = list(m.get('nlri') or []) + list(m.get('withdraw') or [])
+    allp = [(p['prefix'] if isinstance(p, dict) else p) for p in list(m.get('nlri') or []) + list(m.get('withdraw') or [])]
+    if rec.get('addpath'):
+        feats.append('add-path')
     if any(p.endswith('/0') for p in allp):
         feats.append('prefix-len-0')
     if m.get('withdraw') and m.get('attr'):
@@ -155,22 +157,33 @@ def run_shard(sh):
     for asn4 in (True, False):
         msgs = [m for i, m in enumerate(systematic(asn4)) if i % sh['nparts'] == sh['part']]
         msgs += list(random_msgs(rng, sh['n'] // 2, asn4))
+        # add-path sessions (RFC 7911): every prefix carries a path identifier, 0 included
+        PIDS = [0, 0, 1, 255, 65536, 4294967295]
+        for m in list(random_msgs(rng, sh['n'] // 10, asn4)):
+            m = dict(m, addpath=True)
+            for part in ('nlri', 'withdraw'):
+                if m.get(part):
+                    m[part] = [{'prefix': p, 'path_id': rng.choice(PIDS + [rng.getrandbits(32)])} for p in m[part]]
+            msgs.append(m)
         for m in msgs:
             key = json.dumps(gen.norm(m), sort_keys=True) + str(asn4)
             if key in seen:
                 continue
             seen.add(key)
             cm = dict(m)
+            ap = bool(cm.pop('addpath', False))
             if 'attr' in cm:
                 cm['attr'] = to_construct(cm['attr'])
             for c, v in (m.get('attr') or {}).items():
                 classes.add(bucket(c, v))
             for p in (m.get('nlri') or []) + (m.get('withdraw') or []):
-                classes.add('prefix/%s' % p.split('/')[1])
+                classes.add('prefix/%s' % (p['prefix'] if isinstance(p, dict) else p).split('/')[1])
+            if ap:
+                classes.add('add-path')
             shape = '+'.join(k for k in ('attr', 'nlri', 'withdraw') if m.get(k))
             shapes[shape] = shapes.get(shape, 0) + 1
             try:
-                Update.construct(cm, asn4)
+                Update.construct(cm, asn4, ap)
             except (contracts.RoundTripBroken, contracts.StructureBroken):
                 raise
             except Exception as e:
@@ -184,7 +197,7 @@ def run_shard(sh):
             continue
         kind, feats = classify(rec)
         uniq.setdefault((kind, tuple(feats)), dict(kind=kind, features=feats, detail=rec['why'] + ' | message ' + json.dumps(rec['msg'])[:300],
-                                                   replay=dict(msg=rec['msg'], asn4=rec['asn4'])))
+                                                   replay=dict(msg=rec['msg'], asn4=rec['asn4'], addpath=rec.get('addpath', False))))
     res['violations'] = list(uniq.values())
     res['distinct'] = [str(hash(k)) for k in seen]
     res['counters'] = dict(contract_evaluations=contracts.STATE['evaluations'].get('Update.construct:roundtrip', 0),
@@ -257,7 +270,7 @@ def replay(rep):
     if 'attr' in m:
         m['attr'] = {int(k): v for k, v in m['attr'].items()}
     try:
-        Update.construct(m, rep['asn4'])
+        Update.construct(m, rep['asn4'], bool(rep.get('addpath')))
     except Exception:
         pass
     out = []
